@@ -241,7 +241,10 @@ let handle (x : sexp) : (string * string) list =
       with Oracle_miss m -> add i r "mismatch" ("corr:C07/requests the model asks the oracle for something the implementation never asked: " ^ m))
     ) runs;
     let total = List.length runs in
-    ("ok", Printf.sprintf "%s %d %d" (if !nt > 0 then "nt" else "tr") !nt total) :: List.rev !res
+    (* the theorems' hypotheses, evaluated on this plan and oracle (coverage only) *)
+    let wf = (try fplan_wf kind_of tree with _ -> false) in
+    let cons = (try consistent answer root_answer kind_of tree with Oracle_miss _ -> false) in
+    ("ok", Printf.sprintf "%s %d %d wf=%d cons=%d" (if !nt > 0 then "nt" else "tr") !nt total (if wf then 1 else 0) (if cons then 1 else 0)) :: List.rev !res
   | _ -> [("error", "unrecognised case")]
 
 let () = run_lines Sys.argv.(1) Sys.argv.(2) handle
